@@ -37,6 +37,9 @@ FileDoc(j) ==
                   free |-> IF "free" \in DOMAIN j.revs[r] THEN [i \in 1..Len(j.revs[r].free) |-> [num |-> j.revs[r].free[i][1], gen |-> j.revs[r].free[i][2]]] ELSE <<>>,
                   comp |-> [c \in 1..Len(j.revs[r].comp) |->
                               [cnum |-> j.revs[r].comp[c].cnum,
+                               nref |-> IF "nref" \in DOMAIN j.revs[r].comp[c] THEN j.revs[r].comp[c].nref ELSE 0,
+                               fref |-> IF "fref" \in DOMAIN j.revs[r].comp[c] THEN j.revs[r].comp[c].fref ELSE 0,
+                               fval |-> IF "fval" \in DOMAIN j.revs[r].comp[c] THEN j.revs[r].comp[c].fval ELSE 0,
                                members |-> [m \in 1..Len(j.revs[r].comp[c].members) |->
                                               [num |-> j.revs[r].comp[c].members[m][1], val |-> ObjOf(j.revs[r].comp[c].members[m][2])]]]]]]]
 
